@@ -63,6 +63,16 @@ func findSpec(name string) *HarnessSpec {
 	return nil
 }
 
+// findSpecFor prefers the registration of the harness under the given property.
+func findSpecFor(prop, name string) *HarnessSpec {
+	for _, s := range registry {
+		if s.Name == name && s.Prop == prop {
+			return s
+		}
+	}
+	return findSpec(name)
+}
+
 func configureEngine(e *sym.Engine) {
 	// native judges / oracles of the vrt package
 	for name, f := range vrt.NativeFuncs {
